@@ -327,6 +327,10 @@ def job(j):
 
 
 def run(tier, seed, rep):
+    # histories of several requests on one object under the full fault alphabet (mc/sessions.py)
+    from .. import sessions
+    _ses = sessions.explore_sessions(tier, seed, {'C07'}, light=True)
+    rep.add_many([v for v in _ses.violations if v['prop'] == 'C07'])
     nparts = 8 if tier == 'thorough' else 2
     jobs = [(f, tier, ka, part, nparts) for f in ('rtu', 'tcp', 'aa55') for ka in (False, True) for part in range(nparts)]
     k = seed % len(jobs)
@@ -343,7 +347,8 @@ def run(tier, seed, rep):
         rep.add_many(out)
         if sample and len(samples) < 3:
             samples.append(sample)
-    cov = dict(states=len(states), transitions=total, executions=total, traces_validated_against_impl=total,
+    cov = dict(session_histories=_ses.executions, session_states=len(_ses.states), session_choice_points=_ses.choice_points,
+               states=len(states), transitions=total, executions=total, traces_validated_against_impl=total,
                outcome_classes={str(k): v for k, v in sorted(ocs.items(), key=str)}, exhaustive=True,
                bound=('counts 1..125' if tier == 'thorough' else 'counts {1,2,61,125}') +
                      ' x every split point from the minimal header to len-1 x second-piece delay {next iteration, '
@@ -359,6 +364,11 @@ def run(tier, seed, rep):
 
 
 def replay(r):
+    if r.get('part') == 'session':
+        from .. import sessions
+        out = sessions.replay(r)
+        out['violations'] = [m for m in out['violations'] if m[0] == 'C07']
+        return out
     case = [bytes.fromhex(c['hex']) if isinstance(c, dict) and 'hex' in c else c for c in r['case']]
     v, o = run_case(tuple(case), r['ka'])
     return dict(case=[c.hex() if isinstance(c, bytes) else c for c in case], outcome=o, violations=v)
